@@ -724,8 +724,12 @@ impl<'a> Interp<'a> {
                         self.event("finally_on_exception_path");
                     }
                     let fr = self.exec_block(fb, env, module);
+                    if let Err(Ctl::Throw(_)) = &fr {
+                        // an exception raised by the finally block supersedes whatever was pending
+                        return fr;
+                    }
                     if fr.is_err() {
-                        // (X) an abrupt exit from a finally block is outside the alphabet
+                        // (X) leaving a finally block by return/break/continue is outside the alphabet
                         if !matches!(fr, Err(Ctl::Unsupported(_)) | Err(Ctl::Abort(..))) {
                             return Err(Ctl::Unsupported("abrupt exit from a finally block (X)".into()));
                         }
